@@ -131,16 +131,20 @@ def _error_at(before, after, lines, slack=1):
 def _second_run_confined(after1, after2, spans):
     """are all lines that the second run changed inside one of the given line spans of after1?"""
     import difflib
-    a, b = after1.splitlines(), (after2 or "").splitlines()
+
+    def blank_imports(lines):
+        # the import that the completed rewrite makes necessary / unnecessary may come or go along with it: import lines
+        # (and blank lines) are not part of the comparison, wherever they stand relative to the call
+        return ["" if l.strip().startswith(("import ", "from ")) else l for l in lines]
+    a, b = blank_imports(after1.splitlines()), blank_imports((after2 or "").splitlines())
     for tag, i1, i2, j1, j2 in difflib.SequenceMatcher(None, a, b, autojunk=False).get_opcodes():
         if tag == "equal":
             continue
-        lo, hi = i1 + 1, max(i2, i1 + 1)
-        if any(s <= lo and hi <= e for s, e in spans):
+        rows = [i for i in range(i1, i2) if a[i].strip()]
+        if not rows and not any(l.strip() for l in b[j1:j2]):
             continue
-        # the import that the completed rewrite makes necessary / unnecessary may be added / removed along with it
-        touched = [l.strip() for l in a[i1:i2] + b[j1:j2] if l.strip()]
-        if all(l.startswith(("import ", "from ")) for l in touched):
+        lo, hi = (rows[0] + 1, rows[-1] + 1) if rows else (i1 + 1, i1 + 1)
+        if any(s <= lo and hi <= e for s, e in spans):
             continue
         return False
     return True
@@ -234,7 +238,9 @@ def _classify(prop, codemod, before, after1, after2):
         try:
             tree = ast.parse(before)
             for n in ast.walk(tree):
-                if isinstance(n, ast.Assign) and len(n.targets) >= 2 and isinstance(n.value, ast.Call) and "Flask" in ast.dump(n.value.func):
+                if isinstance(n, ast.Assign) and len(n.targets) >= 2 and isinstance(n.value, ast.Call) \
+                        and (after2 or "").count("CSRFProtect(") > (after1 or "").count("CSRFProtect("):
+                    # (whatever name Flask was imported under) the second run adds the protection once more
                     return "kf_flask_csrf_chained_targets"
             for n in ast.walk(tree):
                 if isinstance(n, ast.ImportFrom) and (n.module or "").startswith("flask_wtf") and any(a.name == "CSRFProtect" for a in n.names):
@@ -373,8 +379,8 @@ def run(ctx: core.Ctx, prop: str):
         run_local_import_round(ctx, jobs, outs)
     if prop in ("C01", "C02"):
         run_line_filter_round(ctx, jobs, outs, prop)
-    if prop == "C07":
-        run_present_keyword_round(ctx, jobs, outs)
+    if prop in ("C07", "C01"):
+        run_present_keyword_round(ctx, jobs, outs, prop)
 
 
 def _added_keywords(before: str, after: str):
@@ -403,9 +409,10 @@ def _added_keywords(before: str, after: str):
     return res
 
 
-def run_present_keyword_round(ctx, jobs, outs):
-    """Second round for C07: the keyword a hardening codemod adds is already spelled out on the call, with a value it does not
-    expect (None / a name): whatever the first run makes of it, a second run must leave it alone."""
+def run_present_keyword_round(ctx, jobs, outs, prop="C07"):
+    """Second round for C07 and C01: the keywords a hardening codemod adds are already spelled out on the call -- all of them, or
+    only some (a prefix, a suffix, the first, the last of the list it adds), with a value it does not expect (None / a name):
+    whatever the first run makes of it, the file must still parse (no keyword twice) and a second run must leave it alone."""
     derived = {}
     for job, o in zip(jobs, outs):
         if o.get("worker_error"):
@@ -423,16 +430,22 @@ def run_present_keyword_round(ctx, jobs, outs):
                     data = before.encode("utf-8")
                     if data[pos:pos + 1] != b")":
                         continue
-                    for val in ("None", "DEFAULT_VALUE"):
-                        ins = ", ".join(f"{k}={val}" for k in added)
-                        sep = "" if not (node.args or node.keywords) else ", "
-                        text = (data[:pos] + (sep + ins).encode() + data[pos:]).decode("utf-8")
-                        if val == "DEFAULT_VALUE":
-                            text = "DEFAULT_VALUE = None\n" + text if not text.startswith("from __future__") else text
-                        if e2e.parses(text):
-                            lst = derived.setdefault(o["codemod"], [])
-                            if len(lst) < (4 if ctx.quick() else 16):
-                                lst.append((f"present_keyword_{val}", text))
+                    subsets = [("all", list(added))]
+                    if len(added) >= 2:
+                        subsets += [("prefix", added[:-1]), ("suffix", added[1:]), ("first", added[:1]), ("last", added[-1:])]
+                    for which, keys in subsets:
+                        for val in ("None", "DEFAULT_VALUE"):
+                            if which != "all" and val == "DEFAULT_VALUE":
+                                continue
+                            ins = ", ".join(f"{k}={val}" for k in keys)
+                            sep = "" if not (node.args or node.keywords) else ", "
+                            text = (data[:pos] + (sep + ins).encode() + data[pos:]).decode("utf-8")
+                            if val == "DEFAULT_VALUE":
+                                text = "DEFAULT_VALUE = None\n" + text if not text.startswith("from __future__") else text
+                            if e2e.parses(text):
+                                lst = derived.setdefault(o["codemod"], [])
+                                if len(lst) < (8 if ctx.quick() else 24) and text not in [t for _, t in lst]:
+                                    lst.append((f"present_keyword_{which}_{val}", text))
     jobs2 = []
     for cm, lst in sorted(derived.items()):
         files = {f"k{i}.py": t for i, (_, t) in enumerate(lst)}
@@ -455,10 +468,14 @@ def run_present_keyword_round(ctx, jobs, outs):
                 ctx.count(f"variant:{variant}")
                 ctx.case({"codemod": cm, "variant": variant, "before": before[:400], "after": a1[:400]},
                          nontrivial_key=(cm, before) if a1 != before else None, sample=a1 != before)
-                if a2 != a1:
+                if prop == "C07" and a2 != a1:
                     ctx.violation(classify("C07", cm, before, a1, a2), f"second run of {cm} changed the file again (variant {variant})",
                                   {"codemod": cm, "filename": f, "variant": variant, "before": before, "after_first_run": a1,
                                    "after_second_run": a2, "expected": "run(run(P)) == run(P)"})
+                if prop == "C01" and a1 != before and not e2e.parses(a1):
+                    ctx.violation(classify("C01", cm, before, a1, a2), f"{cm} left a file that no longer parses (variant {variant})",
+                                  {"codemod": cm, "filename": f, "variant": variant, "before": before, "after_first_run": a1,
+                                   "expected": "the rewritten file parses"})
 
 
 def _added_imports(before: str, after: str):
@@ -571,17 +588,18 @@ def run_line_filter_round(ctx, jobs, outs, prop):
                     derived[o["codemod"]].append((not clean, len(text), ftext, lines[0] + 1, lines[0] + n + 3))
     jobs2 = []
     for cm, cands in sorted(derived.items()):
-        lst = [(t, l1, l2) for (_, _, t, l1, l2) in sorted(cands)[: (4 if ctx.quick() else 16)]]
+        lst = [(t, l1, l2) for (_, _, t, l1, l2) in sorted(cands)[: (4 if ctx.quick() else 9)]]
         subs = []
         for i, (text, l1, l2) in enumerate(lst):
             for label, inc, exc in (("line_excluded_first", (), (f"d{i}.py:{l1}",)), ("line_excluded_second", (), (f"d{i}.py:{l2}",)),
                                     ("line_included_first", (f"d{i}.py:{l1}",), ())):
                 subs.append({"files": {f"d{i}.py": text}, "meta": {f"d{i}.py": {"variant": label}}, "tool": None, "results": None,
                              "path_include": list(inc), "path_exclude": list(exc)})
-        jobs2.append({"codemod": cm, "subprojects": subs})
+        for k in range(0, len(subs), 9):          # small jobs: each subproject costs two applications of the codemod
+            jobs2.append({"codemod": cm, "subprojects": subs[k:k + 9]})
     if not jobs2:
         return
-    for job, o in zip(jobs2, e2e.run_jobs(ctx, jobs2)):
+    for job, o in zip(jobs2, e2e.run_jobs(ctx, jobs2, timeout=2400)):
         cm = o["codemod"]
         if o.get("worker_error"):
             ctx.mismatch("e2e worker", f"worker failed for {cm} (line-filter round)", {"codemod": cm, "error": o["worker_error"][-500:]})
